@@ -434,6 +434,8 @@ def call(pe, name, args, kwargs, node):
     if isinstance(v, Mock) and "obj" in v.attrs:
       return call(pe, "copy.deepcopy", [v.attrs["obj"]], {}, node)
     pe.err("json.loads of a non-constant string", node)
+  if name == "tf.is_tensor" and len(args) == 1:
+    return isinstance(args[0], Tensor)
   if name in ("re.findall", "re.split"):
     import re as _re
     if isinstance(args[0], str) and isinstance(args[1], str):
@@ -1190,7 +1192,8 @@ def isinstance_(pe, v, ty):
           isinstance(v, bool):
         return True
     elif n == "float":
-      if isinstance(v, FloatTag):
+      # (exact fractions stand for Python floats; ints are ints)
+      if isinstance(v, (FloatTag, Fraction)):
         return True
     elif n == "bool":
       if isinstance(v, bool):
